@@ -763,7 +763,13 @@ func (env *Env) call(x *ECall) (CVal, error) {
 		if !ok || lit.Kind != "string" {
 			return CVal{}, fmt.Errorf("call(\"f\", args...): the function is named by a string literal")
 		}
-		ct := fc.e.resolveFuncKey(lit.Val, env.pkg)
+		fname, resIdx := lit.Val, 0
+		if i := strings.LastIndex(fname, "#"); i >= 0 {
+			if n, err := strconv.Atoi(fname[i+1:]); err == nil {
+				fname, resIdx = fname[:i], n
+			}
+		}
+		ct := fc.e.resolveFuncKey(fname, env.pkg)
 		if ct == nil {
 			return CVal{}, fmt.Errorf("call(%q): no (unique) function under contract with that name", lit.Val)
 		}
@@ -775,13 +781,13 @@ func (env *Env) call(x *ECall) (CVal, error) {
 			}
 			args = append(args, v)
 		}
-		t, err := fc.heapFunTerm(ct, args, env.state())
+		t, err := fc.heapFunTerm(ct, resIdx, args, env.state())
 		if err != nil {
 			return CVal{}, err
 		}
 		var rt types.Type
-		if fn := fc.e.funcs[ct.Key]; fn != nil {
-			rt = fn.Signature.Results().At(0).Type()
+		if _, _, res, err := fc.e.hfSig(ct); err == nil && resIdx < res.Len() && t.Sort != SBool {
+			rt = res.At(resIdx).Type()
 		}
 		return CVal{t, rt}, nil
 	case "perm": // perm(a, b): slice b is a permutation of slice a
